@@ -25,9 +25,9 @@ pub fn run(env: &Env) {
         }
     }
     // wide shapes: the total L + 1 + M around word sizes (a mask / window slip shows only there); a few disclosure patterns each
-    for s in suites() { let k = key(s, "k0"); for (l, m) in [(60usize, 4usize), (59, 4), (63, 1), (63, 0), (64, 0), (65, 0), (0, 63), (0, 64), (32, 32), (31, 32), (100, 29), (127, 1), (128, 0), (1, 128), (0, 200), (175, 30), (0, 2045)] {
+    for s in suites() { let k = key(s, "k0"); for (l, m) in [(60usize, 4usize), (59, 4), (63, 1), (63, 0), (64, 0), (65, 0), (0, 63), (0, 64), (32, 32), (31, 32), (100, 29), (127, 1), (128, 0), (1, 128), (0, 200), (175, 30), (0, 253), (0, 254), (0, 256), (2, 300), (0, 2045)] {
         // (0, 2045): commitment_with_proof of 65 552 octets, proofs around 2^16 octets
-        if !env.thorough() && l + m > 210 { continue; }
+        if !env.thorough() && l + m > 310 { continue; }
         roots.push(Root { id: format!("{}/k0/L{}/M{}/h=16B/commit/wide", s.name(), l, m), suite: s, key: k.clone(), l, m, hn: hs[2].0.clone(), header: hs[2].1.clone(), ph: hs[2].1.clone(), mode: if m == 0 { "no-commitment(None)" } else { "commit" } });
     } }
     // equal message contents across positions and across the two lists (a de-duplication by content shows only there)
